@@ -878,13 +878,13 @@ func c07NumbersSpec(f *ssa.Function) (okInt, okFloat, okIntVal, okFloatVal bool)
 	}
 	var args []sval
 	for _, p := range f.Params {
-		args = append(args, symv(p.Name()))
+		args = append(args, symv(pname(p)))
 	}
 	outs, ab := cfg.run(f, args)
 	if ab != "" || len(outs) == 0 || len(f.Params) < 2 {
 		return
 	}
-	text := f.Params[1].Name() + ".Val"
+	text := pname(f.Params[1]) + ".Val"
 	okInt = strings.HasPrefix(intArgs, "["+text+" 0 64")
 	okFloat = strings.HasPrefix(floatArgs, "["+text+" 64")
 	okIntVal, okFloatVal = true, true
